@@ -124,7 +124,7 @@ func (x *hW) digest() hDigest {
 	return d
 }
 
-const hNEntry = 34
+const hNEntry = 36
 
 // entry performs structural entry point k with arguments that are legal on an
 // unlocked world; returns false if k does not apply to the current world.
@@ -232,6 +232,10 @@ func (x *hW) entry(k int, q bool) {
 	case 33: // RemoveEntities matching nothing
 		fe := x.mkFilter(fAB, Entity{})
 		x.opRemoveEntities(fe.f, fAB, Entity{})
+	case 34: // re-targeting to the current target is still a structural call
+		x.opSetRelation(1, uR1, x.tgt[1])
+	case 35: // an exchange that adds and removes nothing
+		x.opExchange(2, 0, 0, 0)
 	}
 }
 
